@@ -39,7 +39,6 @@ FIXES = [
     ("fixed-C11-number-exponent-name", "C11", "", "number in SDL is one token"),
     ("fixed-C01-async-type-resolver", "C01", "", "coroutine type resolvers are awaited"),
     ("fixed-C06-fragment-chain-work", "C06", "acceptance_work_explodes", "walks the fragment spread graph as a tree"),
-    ("fixed-C11-include-deprecated-null", "C11", "includeDeprecated=False", "includeDeprecated: null does not include"),
     ("fixed-C14-excluded-root-field", "C14", "subscribe_raised", "root field is excluded instead of raising IndexError"),
     ("fixed-C02-raising-getattr-exception", "C02", "raise_odd", "whose __getattr__ raises is reported"),
     ("fixed-C03-enum-result-equal-object", "C03", "EqName", "serialised as the declared value"),
